@@ -952,18 +952,38 @@ impl IndexManager {
         truncated_key[..9.min(key_bytes.len())]
             .copy_from_slice(&key_bytes[..9.min(key_bytes.len())]);
 
-        if let Some(index) = self.indices.get_mut(&index_id) {
+        if self.indices.contains_key(&index_id) {
             let tombstone = UpdateEntry::new(
                 truncated_key,
                 entry.archive_location,
                 entry.size,
                 UpdateStatus::Delete,
             );
-            index.update_section.append(tombstone);
-            return true;
+            return self.append_update(index_id, &tombstone);
         }
 
         false
+    }
+
+    /// Append an entry to a bucket's update section.
+    ///
+    /// If the update section is full, flushes it first (merge into the
+    /// sorted section), then retries, as `add_entry` does. Returns `false`
+    /// only if the entry could not be recorded.
+    fn append_update(&mut self, index_id: u8, entry: &UpdateEntry) -> bool {
+        if let Some(index) = self.indices.get_mut(&index_id)
+            && index.update_section.append(entry.clone())
+        {
+            return true;
+        }
+
+        if self.flush_updates_for_bucket(index_id).is_err() {
+            return false;
+        }
+
+        self.indices
+            .get_mut(&index_id)
+            .is_some_and(|index| index.update_section.append(entry.clone()))
     }
 
     /// Check if an entry exists by encoding key
@@ -994,7 +1014,7 @@ impl IndexManager {
         truncated_key[..9.min(key_bytes.len())]
             .copy_from_slice(&key_bytes[..9.min(key_bytes.len())]);
 
-        if let Some(index) = self.indices.get_mut(&index_id) {
+        if self.indices.contains_key(&index_id) {
             let entry = UpdateEntry::new(
                 truncated_key,
                 ArchiveLocation {
@@ -1004,7 +1024,7 @@ impl IndexManager {
                 size,
                 UpdateStatus::Normal,
             );
-            return index.update_section.append(entry);
+            return self.append_update(index_id, &entry);
         }
 
         false
@@ -1028,10 +1048,10 @@ impl IndexManager {
         truncated_key[..9.min(key_bytes.len())]
             .copy_from_slice(&key_bytes[..9.min(key_bytes.len())]);
 
-        if let Some(index) = self.indices.get_mut(&index_id) {
+        if self.indices.contains_key(&index_id) {
             let update =
                 UpdateEntry::new(truncated_key, entry.archive_location, entry.size, status);
-            return index.update_section.append(update);
+            return self.append_update(index_id, &update);
         }
 
         false
